@@ -359,6 +359,7 @@ pub fn sync_profile(rng: &mut Rng, focus: &str) -> SyncProfile {
     p.yields = false; // yield has scheduling semantics of its own (C18); not part of these families
     match focus {
         "lock" => {
+            p.yields = rng.chance(1, 5);
             p.mutex = rng.range(1, 2);
             p.rwlock = rng.chance(1, 2);
             p.cells = rng.chance(2, 3);
@@ -369,6 +370,7 @@ pub fn sync_profile(rng: &mut Rng, focus: &str) -> SyncProfile {
             p.chan = false;
         }
         "wait" => {
+            p.yields = rng.chance(1, 5);
             p.condvar = rng.chance(2, 3);
             p.notify = rng.chance(1, 3);
             p.park = rng.chance(1, 2);
@@ -380,6 +382,7 @@ pub fn sync_profile(rng: &mut Rng, focus: &str) -> SyncProfile {
             p.cells = rng.chance(1, 3);
         }
         "deadlock" => {
+            p.yields = rng.chance(1, 4);
             p.mutex = rng.range(1, 2);
             p.condvar = rng.chance(1, 2);
             p.park = rng.chance(1, 2);
@@ -953,5 +956,34 @@ pub fn gen_arc(rng: &mut Rng, leaky: bool) -> Program {
     for t in 1..nt {
         p.threads[t] = std::mem::take(&mut bodies[t]);
     }
+    p
+}
+
+/// More stores to one location than loom's history window (C14/C13 only: the completeness
+/// properties exclude this regime, termination and non-repetition do not).
+pub fn gen_many_stores(rng: &mut Rng) -> Program {
+    let mut vs = ValueSrc::new();
+    let mut p = Program { atomics: vec![0], ..Default::default() };
+    let n_main = rng.range(5, 9);
+    let n_other = rng.range(0, 2);
+    let mut t0 = vec![Op::Spawn { t: 1 }];
+    for _ in 0..n_main {
+        t0.push(Op::Store { a: 0, v: vs.constant(), o: *rng.pick(&[MO::Rlx, MO::Rel, MO::Sc]) });
+    }
+    let mut t1 = Vec::new();
+    for _ in 0..n_other {
+        t1.push(Op::Store { a: 0, v: vs.constant(), o: MO::Rlx });
+    }
+    for _ in 0..rng.range(1, 2) {
+        t1.push(Op::Load { a: 0, o: *rng.pick(&[MO::Rlx, MO::Acq]) });
+    }
+    if rng.chance(1, 2) {
+        t0.push(Op::Join { t: 1 });
+        t0.push(Op::Load { a: 0, o: MO::Rlx });
+    } else {
+        t0.insert(1, Op::Join { t: 1 });
+        t0.push(Op::Load { a: 0, o: MO::Rlx });
+    }
+    p.threads = vec![t0, t1];
     p
 }
